@@ -248,6 +248,10 @@ def make_objective(b: Built, o, p):
             obj = getattr(ps, cls)(list_of_tasks=[b.tasks[i - 1] for i in sub])   # the objective over a subset of the tasks
         else:
             obj = getattr(ps, cls)()
+    elif cls == "ObjectiveMinimizeFlowtimeSingleResource":
+        ind = p["inds"][o["ind"] - 1]
+        kwf = {} if ind.get("whole") else {"time_interval": [ind["lo"], ind["hi"]]}
+        obj = ps.ObjectiveMinimizeFlowtimeSingleResource(resource=resource(b, ind["res"]), **kwf)
     elif cls in ("ObjectiveMaximizeMaxBufferLevel", "ObjectiveMinimizeMaxBufferLevel"):
         obj = getattr(ps, cls)(buffer=b.buffers[o["buffer"] - 1])
     else:
